@@ -2,7 +2,7 @@
 
    Model: Model/Native.v = pyasn1/codec/native/{encoder,decoder}.py and the bare-value
    (`asn1Spec is not None`) branches of the BER/CER/DER encoders, as repaired by fixes F15 (empty
-   BIT STRING came out as '0'), F16 (absent OPTIONAL key raised), F40 (an absent OPTIONAL member
+   BIT STRING came out as '0'), F16 (absent OPTIONAL key raised), F28n (an absent OPTIONAL member
    whose own members are all optional came out as {}), F41 ([] / nothing assigned decoded to a
    schema object), F42 (DEFAULT test compared the raw Python value), F43 (string fragments carried
    the schema's tags).  Clauses outside every theorem (DESIGN section 8): a REAL other than +-inf
